@@ -20,7 +20,12 @@ EXPLANATION = (
     "operands as (left, right); (RECIPES) get_inds / get_tensordot_axes / get_einsum_eq / "
     "get_tensordot_perm share the left-before-right convention, axes are paired, the "
     "permutation has the direction source.find(ix) for ix in target; (ROOT) root axis order "
-    "is the declared output's; (TOPO) children are executed before parents."
+    "is the declared output's; (TOPO) children are executed before parents. "
+    "Later rounds added: "
+    "(RECIPES eq-renaming) the pairwise equation is re-lettered through one unfiltered "
+    "counter-derived map; (BACKEND, shared with C11) conventions of the default "
+    "matmul-based implementation; (MERGE, shared with C18) figures installed by annealing "
+    "moves. "
 )
 ASSUMPTIONS = ("tensordot(a, b, (ax_a, ax_b)) returns a's kept axes followed by b's kept axes; "
                "transpose(x, p) puts source axis p[i] at i",)
